@@ -88,8 +88,14 @@ def split(acts):
     return routes
 
 
-def canon(name, acts):
+def canon(name, acts, inst=None):
     acts = list(acts)
+    if name == "mdcpdp":
+        # non-empty tours as (depot, route); idle depot hops and the order in which the vehicles leave are forgotten
+        from vlib.oracles.routing import MDCPDP
+
+        tours, _ = MDCPDP.tours(inst, acts)
+        return frozenset((dep, tuple(cs)) for dep, cs, _ in tours if cs)
     if name in ("tsp", "atsp"):
         k = acts.index(0)
         return tuple(acts[k:] + acts[:k])
@@ -137,6 +143,23 @@ def candidates(name, inst):
         for p in itertools.permutations(range(1, n)):
             seq = (0,) + p
             yield seq, list(seq)
+        return
+    if name == "mdcpdp":
+        # every order of the customers, cut into at most D consecutive routes, each route given to a distinct depot's vehicle
+        D = inst["D"]
+        cust = list(range(D, len(inst["locs"])))
+        seen = set()
+        for p in itertools.permutations(cust):
+            for parts in compositions(p, D):
+                for deps in itertools.permutations(range(D), len(parts)):
+                    c = frozenset(zip(deps, parts))
+                    if c in seen:
+                        continue
+                    seen.add(c)
+                    seq = []
+                    for dep, r in sorted(zip(deps, parts)):
+                        seq += [dep] + list(r) + [dep]
+                    yield c, seq
         return
     n = len(inst["locs"]) - 1
     cust = list(range(1, n + 1))
